@@ -642,7 +642,43 @@ func c09PluginsFirst(c *Check, P string, r *RouterRoles2) {
 	}
 }
 
+// c09StartAndDecorate: who starts handlers and who wraps their publisher / subscriber (also decided under C09: it
+// fixes which middlewares and decorators a handler runs with).
+func c09StartAndDecorate(c *Check, P string, r *RouterRoles2) {
+	// handlers are started by Run and by the user's own RunHandlers calls, at a moment the user chooses (after the
+	// handler's middlewares were added): nothing else in the package starts them
+	for _, cl := range Callers(r.Funcs, r.RunHandlers) {
+		c.Report(HomeFn(cl.Parent()) == r.Run, P+".O2", "HANDLERS-STARTED-ONLY-BY-RUN", cl.Parent(), cl.Pos(), "RunHandlers call", "inside the package RunHandlers is called by Run only (a handler that is started as a side effect of its registration misses the middlewares added after AddHandler returned)")
+	}
+	// a handler's publisher and subscriber are replaced only when it is started (the decorate step of RunHandlers)
+	okW := map[*ssa.Function]bool{r.AddHandler: true, r.RunHandlers: true}
+	for _, f := range sameReceiverCalleesOf(r.RunHandlers) {
+		okW[f] = true
+	}
+	// (with a new helper read at its call: what the helper calls counts as called by RunHandlers)
+	for _, cl := range CallsIn(r.RunHandlers) {
+		if _, isCall := cl.(*ssa.Call); !isCall {
+			continue
+		}
+		if cal := CalleeFn(cl.Common()); cal != nil && cal.Pkg == r.RunHandlers.Pkg && len(cal.Blocks) > 0 && HomeFn(cl.Parent()) == r.RunHandlers {
+			okW[cal] = true
+		}
+	}
+	for _, fld := range []*types.Var{r.HPub, r.HSub} {
+		if fld == nil {
+			continue
+		}
+		for _, fn := range r.Funcs {
+			for _, st := range FieldStores(fn, fld) {
+				home := HomeFn(fn)
+				c.Report(okW[home] || okW[fn] || allocatesNamed(fn, r.HandlerT), P+".O2", "WHO-MAY-REPLACE-A-HANDLERS-PUBSUB", fn, st.Pos(), "store to handler."+fld.Name(), "a handler's publisher / subscriber is set when the handler is built and wrapped when it is started, nowhere else (decorators applied later to running handlers end up in another order than for handlers started afterwards)")
+			}
+		}
+	}
+}
+
 func c09All(c *Check, P string, r *RouterRoles2) {
+	c09StartAndDecorate(c, P, r)
 	c09PluginsFirst(c, P, r)
 	// the three list fields of Router
 	mwT := c.P.Named("message", "middleware")
@@ -1034,7 +1070,18 @@ func c09All(c *Check, P string, r *RouterRoles2) {
 			continue
 		}
 		if len(FieldStores(cal, r.HPub))+len(FieldStores(cal, r.HSub)) == 0 {
-			continue
+			// or a function that hands the decorated publisher / subscriber back for RunHandlers to store
+			stored := false
+			for _, f := range []*types.Var{r.HPub, r.HSub} {
+				for _, st := range FieldStores(r.RunHandlers, f) {
+					if AllOrigins(st.Val, func(o ssa.Value) bool { return IsResultOf(o, cl, 0) }) {
+						stored = true
+					}
+				}
+			}
+			if !stored {
+				continue
+			}
 		}
 		ndec++
 		c.Report(len(notStarted) > 0 && GuardedBy(r.RunHandlers, cl, notStarted), P+".O2", "DECORATE-ONCE", r.RunHandlers, cl.Pos(), "decorate call "+fmt.Sprint(ndec),
@@ -1056,7 +1103,31 @@ func c09All(c *Check, P string, r *RouterRoles2) {
 				c.Report(AllOrigins(w.Call.Common().Args[0], func(o ssa.Value) bool {
 					return LoadedField(o) == r.HPub || o == CallValue(w.Call) || isExtractOf(o, w.Call)
 				}), P+".O2", "WRAP-BASE/publisher", fn, w.Call.Pos(), "publisher decorator wrap", "the chain starts from the handler's own publisher")
-				c.Report(len(FieldStores(fn, r.HPub)) == 1, P+".O2", "WRAP-STORED/publisher", fn, w.Call.Pos(), "publisher decorator wrap", "the decorated publisher replaces the handler's publisher")
+				okStored := len(FieldStores(fn, r.HPub)) == 1
+				if !okStored && len(FieldStores(fn, r.HPub)) == 0 {
+					// handed back: every caller stores the result as the handler's publisher before it goes on
+					sites := Callers(r.Funcs, fn)
+					okStored = len(sites) > 0
+					for _, site := range sites {
+						found := false
+						for _, st := range FieldStores(site.Parent(), r.HPub) {
+							if AllOrigins(st.Val, func(o ssa.Value) bool { return IsResultOf(o, site, 0) }) {
+								found = true
+							}
+						}
+						if !found {
+							okStored = false
+						}
+					}
+					for _, ret := range Returns(fn) {
+						if RetNil(ret, len(ret.Results)-1) && !AllOrigins(ret.Results[0], func(o ssa.Value) bool {
+							return LoadedField(o) == r.HPub || o == CallValue(w.Call) || isExtractOf(o, w.Call)
+						}) {
+							okStored = false
+						}
+					}
+				}
+				c.Report(okStored, P+".O2", "WRAP-STORED/publisher", fn, w.Call.Pos(), "publisher decorator wrap", "the decorated publisher replaces the handler's publisher")
 				// whatever the handler's configuration: a successful return comes after the decoration
 				for _, st := range FieldStores(fn, r.HPub) {
 					for _, ret := range Returns(fn) {
@@ -1167,6 +1238,9 @@ func c10RouterSafety(c *Check, P string, r *RouterRoles2) {
 		})
 	}
 	c.Report(true, P+".O5", "PANICS-SCANNED", nil, token.NoPos, "package scan", fmt.Sprintf("%d explicit panics in package message examined", np))
+	// a lock taken by a function of the package is released on every exit (a deferred unlock, or a hand-off to a goroutine
+	// that releases it, counts only for the returns it covers), and nothing unlocks what it does not hold
+	la.ReportLeaks(c, P+".O5", r.Funcs)
 	// no two router locks are taken in both orders, also when the second one is taken by a method called in place
 	// (IsClosed() under the handlers lock against Close, which takes the closed lock first)
 	es := la.LockOrderThroughCalls()
@@ -1269,7 +1343,23 @@ func c10RouterSafety(c *Check, P string, r *RouterRoles2) {
 			}
 			c.Floor(P+".O2", "accesses to the handler map", n, 4)
 		}
+		// a handler leaves the map when its own goroutine has ended, and nowhere else: an earlier removal (in Stop, say)
+		// lets the name be registered again, and the old goroutine then deletes the new handler
+		for _, a := range la.Accesses(hmap) {
+			if a.What != "delete" {
+				continue
+			}
+			home := HomeFn(a.Ins.Parent())
+			okOwner := false
+			for _, f := range WithStarted(r.StartLit) {
+				if f == home || f == a.Ins.Parent() {
+					okOwner = true
+				}
+			}
+			c.Report(okOwner, P+".O2", "HANDLER-REMOVED-ONLY-BY-ITS-OWN-GOROUTINE", a.Ins.Parent(), a.Ins.Pos(), "delete from the handler map", "a handler is removed from the router's map only by the goroutine that ran it, after its loop ended")
+		}
 	}
+	c09StartAndDecorate(c, P, r)
 }
 
 // c10CloseSignals: whoever waits on the router's signals (Run, the handlers' close watchers, Close's other callers) is
@@ -1378,12 +1468,29 @@ func c10Lifecycle(c *Check, P string, r *RouterRoles2) {
 			if call, ok := cl.(*ssa.Call); ok {
 				if cal := CalleeFn(&call.Call); cal != nil && cal.Pkg == RH.Pkg && cal.Signature.Recv() != nil && len(FieldStores(cal, r.HPub))+len(FieldStores(cal, r.HSub)) > 0 {
 					setup = append(setup, cl)
+				} else if cal != nil && cal.Pkg == RH.Pkg {
+					// a decorate function that hands the decorated value back (RunHandlers stores it)
+					for _, f := range []*types.Var{r.HPub, r.HSub} {
+						for _, st := range FieldStores(RH, f) {
+							if AllOrigins(st.Val, func(o ssa.Value) bool { return IsResultOf(o, cl, 0) }) {
+								setup = append(setup, cl)
+							}
+						}
+					}
 				}
 			}
 		}
 		isSetupErr := func(x ssa.Value) bool {
 			if ResultOfAny(setup, 0)(x) {
 				return true
+			}
+			// the error of a setup function with two results (value, error)
+			if e, isE := x.(*ssa.Extract); isE && e.Index == 1 {
+				for _, su := range setup {
+					if e.Tuple == CallValue(su) {
+						return true
+					}
+				}
 			}
 			e, ok := x.(*ssa.Extract)
 			return ok && e.Tuple == CallValue(sub) && e.Index == 1
@@ -1743,6 +1850,7 @@ func LoadedFieldIsMapOf(v ssa.Value, t *types.Named) bool {
 // (decorator) call whose argument is again ownOrDecorated.
 func ownOrDecorated(v ssa.Value, f *types.Var) bool {
 	seen := map[ssa.Value]bool{}
+	seenFn := map[*ssa.Function]bool{}
 	var rec func(v ssa.Value) bool
 	rec = func(v ssa.Value) bool {
 		if seen[v] {
@@ -1763,10 +1871,29 @@ func ownOrDecorated(v ssa.Value, f *types.Var) bool {
 			} else if cl, ok := o.(*ssa.Call); ok {
 				call = cl
 			}
-			if call == nil || call.Call.IsInvoke() || len(call.Call.Args) != 1 {
+			if call == nil || call.Call.IsInvoke() {
+				return false
+			}
+			if cal := CalleeFn(&call.Call); (cal == nil || cal.Parent() != nil) && len(call.Call.Args) != 1 {
 				return false
 			}
 			if cal := CalleeFn(&call.Call); cal != nil && cal.Parent() == nil {
+				// a function of the package that returns the decorated own publisher / subscriber of the handler it is given
+				if cal.Pkg == call.Parent().Pkg && len(cal.Blocks) > 0 && !seenFn[cal] {
+					seenFn[cal] = true
+					okAll := true
+					for _, r := range Returns(cal) {
+						if len(r.Results) == 0 || IsNilConst(r.Results[0]) {
+							continue
+						}
+						if !rec(r.Results[0]) {
+							okAll = false
+						}
+					}
+					if okAll {
+						continue
+					}
+				}
 				return false // a named function is not a decorator value
 			}
 			if !rec(call.Call.Args[0]) {
